@@ -33,11 +33,28 @@ def make_copy():
 
 
 def run_check(pid, repo, evdir):
-    env = dict(os.environ, PROPHY_REPO=repo, VERIF_EVIDENCE_DIR=evdir)
+    env = dict(os.environ, PROPHY_REPO=repo, VERIF_EVIDENCE_DIR=evdir, VERIF_TIER='quick')
     p = subprocess.run(['/venv/bin/python', os.path.join(VERIF, 'check.py'), pid], capture_output=True, text=True, env=env)
     viol = [l for l in p.stdout.splitlines() if l.startswith('  rule ')]
     known = sorted(l.split(' [')[0] for l in p.stdout.splitlines() if l.startswith('KNOWN-FINDING'))
     return p.returncode, viol, known, p.stdout
+
+
+def seeded_entries():
+    """The independently written, confirmed seeded changes under /verif/seeded as additional mutants: each must be reported
+    by the property it was written against."""
+    import glob
+    out = []
+    for mp in sorted(glob.glob(os.path.join(VERIF, 'seeded', '*', 'meta.json'))):
+        try:
+            meta = json.load(open(mp))
+        except ValueError:
+            continue
+        d = os.path.dirname(mp)
+        patch = os.path.join(d, 'patch.diff')
+        if os.path.exists(patch) and meta.get('property'):
+            out.append(('seed-' + os.path.basename(d), [meta['property']], patch, None, None, (meta.get('summary') or '')[:160]))
+    return out
 
 
 def one(entry, kind, baseline):
@@ -45,11 +62,17 @@ def one(entry, kind, baseline):
     d = make_copy()
     ev = tempfile.mkdtemp(prefix='sa_selftest_ev_')
     try:
-        path = os.path.join(d, rel)
-        src = open(path, encoding='utf-8').read()
-        if src.count(old) != 1:
-            return {'id': mid, 'kind': kind, 'ok': False, 'error': 'pattern occurs %d times in %s' % (src.count(old), rel)}
-        open(path, 'w', encoding='utf-8').write(src.replace(old, new))
+        if old is None:
+            p = subprocess.run(['patch', '-p1', '-s', '-d', d, '-i', rel], capture_output=True, text=True)
+            if p.returncode:
+                return {'id': mid, 'kind': kind, 'ok': False, 'error': 'patch does not apply: ' + (p.stdout + p.stderr)[-200:]}
+            rel = os.path.relpath(rel, VERIF)
+        else:
+            path = os.path.join(d, rel)
+            src = open(path, encoding='utf-8').read()
+            if src.count(old) != 1:
+                return {'id': mid, 'kind': kind, 'ok': False, 'error': 'pattern occurs %d times in %s' % (src.count(old), rel)}
+            open(path, 'w', encoding='utf-8').write(src.replace(old, new))
         res = {'id': mid, 'kind': kind, 'note': note, 'file': rel, 'results': {}}
         ok = True
         for pid in props:
@@ -67,6 +90,28 @@ def one(entry, kind, baseline):
     finally:
         shutil.rmtree(d, ignore_errors=True)
         shutil.rmtree(ev, ignore_errors=True)
+
+
+def run_for(pid, seed=0, jobs=16):
+    """Kill matrix of one property's rules: (results, n_mutants, n_killed, n_benign, n_silent)."""
+    muts = [(e[0], [pid]) + tuple(e[2:]) for e in list(catalog.MUTANTS) + seeded_entries() if pid in e[1]]
+    ben = [(e[0], [pid]) + tuple(e[2:]) for e in catalog.BENIGN if pid in e[1]]
+    rnd = random.Random(seed)
+    rnd.shuffle(muts)
+    rnd.shuffle(ben)
+    baseline = {}
+    ev = tempfile.mkdtemp(prefix='sa_selftest_ev_')
+    try:
+        rc, viol, known, out = run_check(pid, REPO, ev)
+        baseline[pid] = (rc, known)
+    finally:
+        shutil.rmtree(ev, ignore_errors=True)
+    results = []
+    with ThreadPoolExecutor(jobs) as ex:
+        futs = [ex.submit(one, e, 'mutant', baseline) for e in muts] + [ex.submit(one, e, 'benign', baseline) for e in ben]
+        for f in futs:
+            results.append(f.result())
+    return results
 
 
 def main():
@@ -89,7 +134,7 @@ def main():
             if props:
                 out.append((e[0], props) + tuple(e[2:]))
         return out
-    muts, ben = sel(catalog.MUTANTS), sel(catalog.BENIGN)
+    muts, ben = sel(list(catalog.MUTANTS) + seeded_entries()), sel(catalog.BENIGN)
     rnd = random.Random(a.seed)
     rnd.shuffle(muts)
     rnd.shuffle(ben)
